@@ -199,6 +199,20 @@ func (s *Sim) afterStep() {
 	}
 
 	// ---- C09 (a): reserved / de-configured IPs never allocated ----
+	if op == "filter" || op == "bind" {
+		if a, _ := s.W.PendingFIPEvents(); len(a) > 0 {
+			s.Counts["reserved_event_pending_at_allocation"]++
+		}
+	}
+	if op == "reload" {
+		for ip, e := range s.prevDump {
+			if e.Key != "" && s.reloadDropped[ip] {
+				if _, still := v.dump[ip]; !still {
+					s.Counts["reload_dropped_allocated_ip"]++
+				}
+			}
+		}
+	}
 	for ip, e := range v.dump {
 		if e.Key == "" || e.Reserved {
 			continue
@@ -430,7 +444,11 @@ func (s *Sim) checkPools(v *view) {
 		}
 		prev := s.prevPoolCnt[name]
 		if bound >= 0 && cnt > prev && cnt > bound && s.prevPoolHad[name] {
-			s.alarm("C07", "sized-pool-grew-beyond-size", fmt.Sprintf("pool %s holds %d IPs (was %d) with size %d in force", name, cnt, prev, bound))
+			clause := "sized-pool-grew-beyond-size"
+			if op := s.lastOp(); op == "bind" && s.lastBindFilterPredatesSize(name, bound) {
+				clause += ":filter-predates-size-in-force"
+			}
+			s.alarm("C07", clause, fmt.Sprintf("pool %s holds %d IPs (was %d) with size %d in force", name, cnt, prev, bound))
 		}
 		if cnt > prev {
 			s.Counts["pool_growths"]++
@@ -933,4 +951,23 @@ func (s *Sim) injectedOnCreate() bool {
 		}
 	}
 	return false
+}
+
+func (s *Sim) lastOp() string {
+	if n := len(s.Steps); n > 0 {
+		return s.Steps[n-1].Op
+	}
+	return ""
+}
+
+// lastBindFilterPredatesSize: the pod bound in the last step was filtered when the pool had no size, or a larger one.
+func (s *Sim) lastBindFilterPredatesSize(pool string, bound int) bool {
+	if s.lastBindPod == "" {
+		return false
+	}
+	r := s.Pods[s.lastBindPod]
+	if r == nil || r.WL.Pool != pool {
+		return false
+	}
+	return r.PoolSizeAtFilter < 0 || r.PoolSizeAtFilter > bound
 }
